@@ -750,6 +750,69 @@ theorem clientStream_ok (n : Bytes) (kids : List Node) (hg : (Node.dir n kids).G
   exact (kids_loop kids (subtreeOK_kids kids) (goodKids_mem kids hg.1) [] (sortBy nodeLe kids) hsub hnd
     [] (Or.inl rfl) (by intro _ _ _ _; rfl)).1
 
+-- ---------------------------------------------------------------- sessions over any store
+
+/-- What one item does to the store when everything the client sends for it arrives: `Ready fs it fs' w`
+    = the item is acceptable in `fs`, leaves `fs'`, and the server writes `w`. -/
+inductive Ready (fs : Fs) (it : UpItem) : Fs → Bytes → Prop
+  | fresh : it.OK → fs.get it.path = {} → fs.parentOK it.path = true →
+      Ready fs it (fs.set it.path it.slot) it.freshWrote
+  | present (x : Final) : (fs.get it.path).final = some x → (it.isDir = true ∨ (fs.get it.path).inc = none) →
+      Ready fs it fs [0, 3]
+  | resumed (k : Nat) : it.isDir = false → it.OK → k ≤ it.data.length → (fs.get it.path).inc = some (it.data.take k) →
+      Ready fs it (fs.set it.path { final := some (.file it.data) }) ((Answer.resume k).bytes ++ [0, 3])
+
+/-- A whole session in which every item is ready at its turn. -/
+inductive Session : Fs → List UpItem → Fs → List Bytes → Prop
+  | nil (fs : Fs) : Session fs [] fs []
+  | cons {fs fs1 fs2 : Fs} {it : UpItem} {rest : List UpItem} {w : Bytes} {ws : List Bytes} :
+      Ready fs it fs1 w → Session fs1 rest fs2 ws → Session fs (it :: rest) fs2 (w :: ws)
+
+theorem upItem_ready (fs fs' : Fs) (it : UpItem) (w : Bytes) (h : Ready fs it fs' w) :
+    (upItem fs it none).ok = true ∧ (upItem fs it none).wrote = w ∧ (upItem fs it none).fs = fs' := by
+  cases h with
+  | fresh hok hfree hpar =>
+    by_cases hd : it.isDir = true
+    · obtain ⟨h1, h2, h3⟩ := upItem_folder fs it none hd hfree hpar
+      refine ⟨h1, ?_, ?_⟩
+      · rw [h2]; simp [UpItem.freshWrote, hd]
+      · rw [h3]; simp [UpItem.slot, hd]
+    · have hf : it.isDir = false := by simpa using hd
+      obtain ⟨h1, h2, h3⟩ := upItem_fresh_file fs it hf hok hfree hpar
+      refine ⟨h1, ?_, ?_⟩
+      · rw [h2]; simp [UpItem.freshWrote, hf]
+      · rw [h3]; simp [UpItem.slot, hf]
+  | present x hx hor =>
+    by_cases hd : it.isDir = true
+    · exact upItem_existing_folder fs it none hd x hx
+    · have hf : it.isDir = false := by simpa using hd
+      rcases hor with h | h
+      · exact absurd h hd
+      · exact upItem_existing_file fs it none hf x hx h
+  | resumed k hf hok hk hinc =>
+    obtain ⟨_, h1, h2, h3⟩ := upItem_resume_file fs it k hf hok hk hinc
+    exact ⟨h1, h2, h3⟩
+
+/-- **Sessions**: when every item is ready at its turn — new, already there, or partially there — the
+    loop accepts them all, answers send / next / resume accordingly, and leaves the store the items describe. -/
+theorem uploadItems_session (fs fs' : Fs) (its : List UpItem) (ws : List Bytes) (h : Session fs its fs' ws) :
+    uploadItems fs (its.map fun it => (it, none)) = (fs', ws, true) := by
+  induction h with
+  | nil fs => simp [uploadItems]
+  | cons hr _ ih =>
+    obtain ⟨h1, h2, h3⟩ := upItem_ready _ _ _ _ hr
+    simp only [List.map_cons, uploadItems, h1, h2, h3, if_true, ih]
+
+/-- Streaming again what is already there changes nothing: every item is answered "next file". -/
+theorem session_all_present (fs : Fs) (its : List UpItem)
+    (h : ∀ it ∈ its, (∃ x, (fs.get it.path).final = some x) ∧ (fs.get it.path).inc = none) :
+    Session fs its fs (its.map fun _ => [0, 3]) := by
+  induction its with
+  | nil => exact Session.nil fs
+  | cons it its ih =>
+    obtain ⟨⟨x, hx⟩, hinc⟩ := h it (by simp)
+    exact Session.cons (Ready.present x hx (Or.inr hinc)) (ih (fun j hj => h j (by simp [hj])))
+
 -- ---------------------------------------------------------------- helpers of the property theorems
 
 theorem preorder_head (t : Node) (p : List Bytes) :
